@@ -517,6 +517,18 @@ impl<'a> NNumReal<'a> {
             NNumReal::Float(f) => BigRational::from_float(*f),
         }
     }
+
+    // how an infinite float compares to any finite number; None if self is not infinite
+    fn cmp_infinite_to_finite(&self) -> Option<Ordering> {
+        match self {
+            NNumReal::Float(f) if f.is_infinite() => Some(if f.is_sign_positive() {
+                Ordering::Greater
+            } else {
+                Ordering::Less
+            }),
+            _ => None,
+        }
+    }
 }
 
 fn to_nint_if_int(f: f64) -> Option<NInt> {
@@ -553,7 +565,13 @@ impl<'a> PartialOrd for NNumReal<'a> {
             (NNumReal::Int(a), NNumReal::Float(b)) => cmp_nint_f64(a, b),
             (NNumReal::Float(a), NNumReal::Int(b)) => cmp_nint_f64(b, a).map(|ord| ord.reverse()),
             (NNumReal::Float(a), NNumReal::Float(b)) => a.partial_cmp(b),
-            (a, b) => a.exact_to_rational()?.partial_cmp(&b.exact_to_rational()?),
+            (a, b) => match (a.exact_to_rational(), b.exact_to_rational()) {
+                (Some(a), Some(b)) => a.partial_cmp(&b),
+                // an infinite float against an exact rational (NaN stays incomparable)
+                (None, Some(_)) => a.cmp_infinite_to_finite(),
+                (Some(_), None) => b.cmp_infinite_to_finite().map(|ord| ord.reverse()),
+                (None, None) => None,
+            },
         }
     }
 }
@@ -571,10 +589,7 @@ impl<'a> NNumReal<'a> {
             (NNumReal::Float(a), NNumReal::Float(b)) => {
                 a.partial_cmp(b).unwrap_or(b.is_nan().cmp(&a.is_nan()))
             } // note swap
-            (a, b) => match (a.exact_to_rational(), b.exact_to_rational()) {
-                (Some(a), Some(b)) => a.cmp(&b),
-                _ => b.is_nan().cmp(&a.is_nan()),
-            },
+            (a, b) => a.partial_cmp(b).unwrap_or(b.is_nan().cmp(&a.is_nan())),
         }
     }
 
@@ -588,10 +603,7 @@ impl<'a> NNumReal<'a> {
             (NNumReal::Float(a), NNumReal::Float(b)) => {
                 a.partial_cmp(b).unwrap_or(a.is_nan().cmp(&b.is_nan()))
             }
-            (a, b) => match (a.exact_to_rational(), b.exact_to_rational()) {
-                (Some(a), Some(b)) => a.cmp(&b),
-                _ => a.is_nan().cmp(&b.is_nan()),
-            },
+            (a, b) => a.partial_cmp(b).unwrap_or(a.is_nan().cmp(&b.is_nan())),
         }
     }
 }
